@@ -37,7 +37,8 @@ class GFFGeneAnnotation:
     def __init__(self, chr_id):
         self.chr_id = chr_id
         self.gene_regions = {}
-        self.feature_attributes = {}
+        # as in GeneInfo: a feature without attributes has an empty string
+        self.feature_attributes = defaultdict(str)
         self.sources = {}
 
     def add(self, gene_info):
